@@ -11,9 +11,15 @@
 //! * K2 "lazy-interleave": all operation sequences of a fixed length, no state merging;
 //! * K2 "reuse": breadth-first search over one `Myers` object (Clone + Hash + Eq over all fields)
 //!   driven through sequences of complete/abandoned searches; every answer equals a fresh object's.
+//! * states of a `FullMatches` without a current hit: every K1 case also calls alignment() on a
+//!   fresh object (`Pass::Fresh`) and start/path/path_reverse/alignment and every next_*() after
+//!   next_end() has returned None (end of `Pass::Current`); K2 "eager-seq": all call sequences of a fixed length over the
+//!   nine methods of `FullMatches`; "fresh-alignment": the rustdoc of alignment() on a fresh object;
+//! * K1 "deact": the block de-activation family of C09 through every entry point.
 
 use super::c09::{
-    ambig_model, boundary_patterns, boundary_texts, build, classify_list, panic_symptom, AnyMyers, Imp, IMPS, K,
+    ambig_model, boundary_patterns, boundary_texts, build, clamp_set, classify_list, deact_plan, deact_texts, panic_symptom,
+    AnyMyers, Imp, FOREIGN, IMPS, K,
 };
 use super::Prop;
 use crate::bfs;
@@ -95,6 +101,39 @@ enum Pass {
     Current,
     NextPathRev,
     NextAln,
+    /// alignment() on the fresh object, nothing else
+    Fresh,
+}
+
+/// what the current-hit accessors answer in a state without a current hit
+#[derive(Clone, Debug, Default, PartialEq, Eq, Hash)]
+struct NoHit {
+    start: Option<usize>,
+    path_start: Option<usize>,
+    path: Ops,
+    rev_start: Option<usize>,
+    rev: Ops,
+    aln_ok: bool,
+    aln: Option<AlnT>,
+    start_again: Option<usize>,
+}
+
+/// the vector handed to path()/path_reverse()/next_path() in a state without a current hit
+fn marker_ops() -> Ops {
+    vec![AlignmentOperation::Xclip(1)]
+}
+
+/// results of the advancing calls once the search is exhausted
+#[derive(Clone, Debug, Default, PartialEq, Eq, Hash)]
+struct Beyond {
+    next_end: Option<(usize, u64)>,
+    next: Option<(usize, usize, u64)>,
+    next_path: Option<(usize, usize, u64)>,
+    next_path_ops: Ops,
+    next_path_rev: Option<(usize, usize, u64)>,
+    next_path_rev_ops: Ops,
+    next_aln_ok: bool,
+    next_aln: Option<AlnT>,
 }
 
 #[derive(Clone, Debug, Default)]
@@ -118,6 +157,13 @@ struct EagerObs {
     triples: Vec<(usize, usize, u64)>,
     cur: Vec<Cur>,
     alns: Vec<AlnT>,
+    /// Fresh pass: alignment() on the fresh object
+    fresh_aln: Option<(bool, AlnT)>,
+    /// Current pass: accessors after next_end() returned None, and once more after the advancing calls
+    after: Vec<NoHit>,
+    beyond: Option<Beyond>,
+    /// Current pass: panic message of a call made after next_end() returned None
+    after_panic: Option<String>,
 }
 
 fn exec_eager(my: &mut AnyMyers, t: &[u8], k: u64, pass: Pass) -> Result<EagerObs, String> {
@@ -155,6 +201,12 @@ fn exec_eager(my: &mut AnyMyers, t: &[u8], k: u64, pass: Pass) -> Result<EagerOb
                         o.alns.push(aln_tuple(&a));
                     }
                 }
+                Pass::Fresh => {
+                    let mut fm = m.find_all(t, k as _);
+                    let mut a = poisoned();
+                    let ok = fm.alignment(&mut a);
+                    o.fresh_aln = Some((ok, aln_tuple(&a)));
+                }
                 Pass::Current => {
                     let mut fm = m.find_all(t, k as _);
                     while let Some((e, d)) = fm.next_end() {
@@ -169,6 +221,42 @@ fn exec_eager(my: &mut AnyMyers, t: &[u8], k: u64, pass: Pass) -> Result<EagerOb
                         c.rev_start = fm.path_reverse(&mut c.rev);
                         c.start_again = fm.start();
                         o.cur.push(c);
+                    }
+                    // next_end() has returned None: the accessors without a current hit, every
+                    // next_*() once more, the accessors again (guarded on its own so that a panic
+                    // here is not taken for one at a current hit)
+                    let r = guard(|| {
+                        let mut after = vec![];
+                        let mut beyond = None;
+                        for round in 0..2 {
+                            let mut x = NoHit { start: fm.start(), path: marker_ops(), rev: marker_ops(), ..Default::default() };
+                            x.path_start = fm.path(&mut x.path);
+                            x.rev_start = fm.path_reverse(&mut x.rev);
+                            let mut a = poisoned();
+                            x.aln_ok = fm.alignment(&mut a);
+                            x.aln = Some(aln_tuple(&a));
+                            x.start_again = fm.start();
+                            after.push(x);
+                            if round == 0 {
+                                let mut b = Beyond { next_path_ops: marker_ops(), next_path_rev_ops: marker_ops(), ..Default::default() };
+                                b.next_end = fm.next_end().map(|(e, d)| (e, d as u64));
+                                b.next = fm.next().map(|(s, e, d)| (s, e, d as u64));
+                                b.next_path = fm.next_path(&mut b.next_path_ops).map(|(s, e, d)| (s, e, d as u64));
+                                b.next_path_rev = fm.next_path_reverse(&mut b.next_path_rev_ops).map(|(s, e, d)| (s, e, d as u64));
+                                let mut a = poisoned();
+                                b.next_aln_ok = fm.next_alignment(&mut a);
+                                b.next_aln = Some(aln_tuple(&a));
+                                beyond = Some(b);
+                            }
+                        }
+                        (after, beyond)
+                    });
+                    match r {
+                        Ok((after, beyond)) => {
+                            o.after = after;
+                            o.beyond = beyond;
+                        }
+                        Err(msg) => o.after_panic = Some(msg),
                     }
                 }
             }
@@ -460,6 +548,109 @@ fn reference_hits(
     }
 }
 
+/// The documented answers of the current-hit accessors in a state without a current hit.
+///
+/// * `last = None`: no hit has been found in this session (fresh object, or the search finished
+///   without a hit). The rustdoc is explicit: start()/path()/path_reverse() return None "if the
+///   search is finished and no hit was found", alignment() returns false "and nothing is done" "if
+///   no hit has been found yet".
+/// * `last = Some(h)`: the search is exhausted after h was returned. The library answers None/false
+///   here as well; the wording of the rustdoc also admits an implementation that keeps answering
+///   for the last hit, so exactly h's values are accepted too. Anything else is a violation.
+///
+/// Of a vector handed to a call that returns None nothing is said beyond "existing data will be
+/// cleared beforehand": untouched and empty are both accepted. An Alignment handed to a call that
+/// returns false must be untouched ("nothing is done").
+fn check_no_hit(f: &str, what: &str, x: &NoHit, last: Option<&Hit>, m: usize, tlen: usize, cc: &mut CaseCtx) {
+    let state = if last.is_some() { "after-exhaustion" } else { "without-any-hit" };
+    let bad = |entry: &str, symptom: String, detail: String, cc: &mut CaseCtx| {
+        cc.violation(vkey(f, entry, &symptom), format!("{}: {}", what, detail));
+    };
+    for (name, got) in [("start", x.start), ("start", x.start_again)] {
+        if let Some(s) = got {
+            if last.map(|h| h.start) != Some(s) {
+                bad(name, format!("answered-{}", state), format!("start() returned {:?}", got), cc);
+                break;
+            }
+        }
+    }
+    let untouched = marker_ops();
+    for (name, got, ops, rev) in [("path", x.path_start, &x.path, false), ("path_reverse", x.rev_start, &x.rev, true)] {
+        match got {
+            None => {
+                if *ops != untouched && !ops.is_empty() {
+                    bad(name, "argument-garbled-on-none".into(), format!("returned None and left {:?} in the vector (was {:?})", ops, untouched), cc);
+                }
+            }
+            Some(s) => {
+                let same = last.map_or(false, |h| h.start == s && if rev { ops.iter().eq(h.ops.iter().rev()) } else { *ops == h.ops });
+                if !same {
+                    bad(name, format!("answered-{}", state), format!("returned Some({}) with {:?}", s, ops), cc);
+                }
+            }
+        }
+    }
+    if let Some(a) = &x.aln {
+        if !x.aln_ok {
+            if *a != aln_tuple(&poisoned()) {
+                bad("alignment", "argument-modified-on-false".into(), format!("returned false but changed the Alignment to {:?}", a), cc);
+            }
+        } else if last.map(|h| expected_aln(h, m, tlen)).as_ref() != Some(a) {
+            bad("alignment", format!("answered-{}", state), format!("returned true with {:?}", a), cc);
+        }
+    }
+}
+
+/// alignment() on a FullMatches on which no next_*() has been called yet. Rustdoc: "If no hit has
+/// been found yet, then `false` will be returned and nothing is done."
+///
+/// The library honours this only while the initial column is incomplete (block-based matcher,
+/// threshold smaller than the rows above the last block); otherwise it returns true and fills in
+/// the empty-prefix column as if it were a hit: score = |p|, ystart = yend = 1, |p| insertions.
+/// That one shape is judged by the small family of the unit `fresh-alignment` (`strict`), under a
+/// key of its own, so that it does not show up in every case of the K1 sweeps; everywhere else it
+/// is passed over and only answers of any other shape are reported.
+fn judge_fresh_alignment(ok: bool, a: &AlnT, m: usize, tlen: usize, strict: bool) -> Option<(&'static str, String)> {
+    if !ok {
+        if *a != aln_tuple(&poisoned()) {
+            return Some(("argument-modified-on-false", format!("alignment() on a fresh FullMatches returned false but changed the Alignment to {:?}", a)));
+        }
+        return None;
+    }
+    let pseudo: AlnT = (m as i32, 0, m, m, 1, 1, tlen, true, vec![AlignmentOperation::Ins; m]);
+    if *a == pseudo {
+        if strict {
+            return Some(("answered-before-first-hit", format!("alignment() on a fresh FullMatches returned true and filled in {:?}", a)));
+        }
+        return None;
+    }
+    Some(("garbage-before-first-hit", format!("alignment() on a fresh FullMatches returned true with {:?}", a)))
+}
+
+/// the advancing calls once next_end() has returned None: the text is used up, there is no next hit
+fn check_beyond(f: &str, b: &Beyond, cc: &mut CaseCtx) {
+    let untouched = marker_ops();
+    if b.next_end.is_some() {
+        cc.violation(vkey(f, "next_end", "hit-after-exhaustion"), format!("next_end() after None returned {:?}", b.next_end));
+    }
+    if b.next.is_some() {
+        cc.violation(vkey(f, "next", "hit-after-exhaustion"), format!("next() after exhaustion returned {:?}", b.next));
+    }
+    for (entry, got, ops) in [("next_path", b.next_path, &b.next_path_ops), ("next_path_reverse", b.next_path_rev, &b.next_path_rev_ops)] {
+        if got.is_some() {
+            cc.violation(vkey(f, entry, "hit-after-exhaustion"), format!("{}() after exhaustion returned {:?}", entry, got));
+        } else if *ops != untouched && !ops.is_empty() {
+            cc.violation(vkey(f, entry, "argument-garbled-on-none"), format!("returned None and left {:?} in the vector", ops));
+        }
+    }
+    if b.next_aln_ok {
+        cc.violation(vkey(f, "next_alignment", "hit-after-exhaustion"), format!("next_alignment() after exhaustion returned true, {:?}", b.next_aln));
+    } else if b.next_aln.as_ref() != Some(&aln_tuple(&poisoned())) {
+        // "If no next hit is found, false is returned and aln remains unchanged"
+        cc.violation(vkey(f, "next_alignment", "argument-modified-on-false"), format!("returned false but changed the Alignment to {:?}", b.next_aln));
+    }
+}
+
 /// the scripted lazy session of the K1 sweep
 fn scripted_lazy_ops(tlen: usize, want: &[(usize, u64)]) -> Vec<LOp> {
     let mut ops = vec![];
@@ -556,6 +747,7 @@ fn check_full_case(
                         Pass::Current => "current-hit",
                         Pass::NextPathRev => "next_path_reverse",
                         Pass::NextAln => "next_alignment",
+                        Pass::Fresh => "alignment",
                     };
                     cc.violation(vkey(&f, entry, panic_symptom(&msg)), format!("{} k={}: {}", imp.name(), ke, msg));
                     None
@@ -631,6 +823,34 @@ fn check_full_case(
                         format!("{} k={}: current hit {:?}, next_path gave {:?}", imp.name(), ke, c, h),
                     );
                     break;
+                }
+            }
+            // the states without a current hit (only when the hits came out right: the model is the hit list)
+            if o.cur.len() == hits.len() && o.cur.iter().zip(&hits).all(|(c, h)| (c.end + 1, c.dist) == (h.end, h.dist)) {
+                for (i, x) in o.after.iter().enumerate() {
+                    let what = format!("{} k={}: {} hits, then None{}", imp.name(), ke, hits.len(), if i > 0 { ", then every next_* once more" } else { "" });
+                    check_no_hit(&f, &what, x, hits.last(), m, t.len(), cc);
+                }
+                if let Some(b) = &o.beyond {
+                    check_beyond(&f, b, cc);
+                }
+                if let Some(msg) = &o.after_panic {
+                    cc.violation(
+                        vkey(&f, "no-current-hit", panic_symptom(msg)),
+                        format!("{} k={}: {} hits, then None, then a call of start/path/path_reverse/alignment/next_* panicked: {}", imp.name(), ke, hits.len(), msg),
+                    );
+                }
+            }
+        }
+        // alignment() on a fresh object, where the documented answer is within reach: the initial
+        // column of the block-based matcher can be incomplete only if the pattern spans several
+        // blocks (every implementation is taken through this call by the units fresh-alignment
+        // and eager-seq)
+        let fresh = if imp.is_long() && m > imp.word() { run(Pass::Fresh, cc) } else { None };
+        if let Some(o) = fresh {
+            if let Some((ok, a)) = &o.fresh_aln {
+                if let Some((symptom, detail)) = judge_fresh_alignment(*ok, a, m, t.len(), false) {
+                    cc.violation(vkey(&f, "alignment", symptom), format!("{} k={}: {}", imp.name(), ke, detail));
                 }
             }
         }
@@ -1215,6 +1435,422 @@ fn reuse_unit(tier: Tier, imp: Imp, ctx: &mut Ctx) {
     }
 }
 
+// ------------------------------------------------------------------ K1: alignment() on a fresh FullMatches
+
+/// family name of the finding keys of this unit: one root cause (the shared FullMatches code), one key
+const FRESH: &str = "fresh-object";
+
+fn check_fresh_alignment(imp: Imp, p: &[u8], t: &[u8], k: K, cc: &mut CaseCtx) {
+    let ke = k.for_imp(imp);
+    let mut my = match build(imp, p, None) {
+        Ok(m) => m,
+        Err(msg) => {
+            cc.violation(vkey(&fam(imp, p.len(), false), "constructor", panic_symptom(&msg)), msg);
+            return;
+        }
+    };
+    let r = guard(|| {
+        on_myers!(&mut my, m => {
+            let mut fm = m.find_all(t, ke as _);
+            let mut a = poisoned();
+            let ok = fm.alignment(&mut a);
+            (ok, aln_tuple(&a))
+        })
+    });
+    cc.set_nontrivial(true);
+    match r {
+        Err(msg) => cc.violation(vkey(FRESH, "alignment", panic_symptom(&msg)), format!("{} k={}: {}", imp.name(), ke, msg)),
+        Ok((ok, a)) => {
+            cc.outcome(&(ok, &a));
+            // The rustdoc says "false, nothing is done" before the first hit; the library answers
+            // with the empty-prefix column instead.  C10 speaks about reported hits only, so that
+            // one shape is counted as an observation, not asserted; any other answer is reported.
+            if ok {
+                cc.count("fresh_alignment_answered_with_empty_prefix_column_instead_of_false", 1);
+            }
+            if let Some((symptom, detail)) = judge_fresh_alignment(ok, &a, p.len(), t.len(), false) {
+                cc.violation(vkey(FRESH, "alignment", symptom), format!("{} k={}: {}", imp.name(), ke, detail));
+            }
+        }
+    }
+}
+
+fn fresh_alignment_unit(tier: Tier, ctx: &mut Ctx) {
+    let mut pats: Vec<Vec<u8>> = gen::strings(b"ab", 1, tier.pick(3, 4));
+    for extra in [&b"aaaaaaab"[..], b"aaaaaaaab", b"abababababababab", b"abababababababaab", b"aabaabaabaabaabaabaabaabaabaabaaa"] {
+        pats.push(extra.to_vec());
+    }
+    let texts = gen::strings(b"ab", 0, tier.pick(2, 3));
+    for p in &pats {
+        let m = p.len() as u64;
+        let mut kv = vec![0u64, 1, 7, 8, 9, 16, 17, m - 1, m, m + 1];
+        kv.sort();
+        kv.dedup();
+        let mut ks: Vec<K> = kv.into_iter().map(K::N).collect();
+        ks.push(K::Max);
+        for t in &texts {
+            for &k in &ks {
+                for imp in IMPS {
+                    if !imp.accepts(p.len()) {
+                        continue;
+                    }
+                    ctx.case(
+                        || json!({"kind": "fresh-alignment", "imp": imp.name(), "p": show(p), "t": show(t), "k": k.to_json()}),
+                        |cc| check_fresh_alignment(imp, p, t, k, cc),
+                    );
+                }
+            }
+        }
+    }
+}
+
+// ------------------------------------------------------------------ K2: call sequences on one FullMatches
+
+#[derive(Clone, Copy, Debug, PartialEq, Eq, Hash, Serialize, Deserialize)]
+enum EOp {
+    NextEnd,
+    Next,
+    NextPath,
+    NextPathRev,
+    NextAln,
+    Start,
+    Path,
+    PathRev,
+    Aln,
+}
+
+const EOPS: [EOp; 9] = [EOp::NextEnd, EOp::Next, EOp::NextPath, EOp::NextPathRev, EOp::NextAln, EOp::Start, EOp::Path, EOp::PathRev, EOp::Aln];
+
+impl EOp {
+    fn advances(self) -> bool {
+        matches!(self, EOp::NextEnd | EOp::Next | EOp::NextPath | EOp::NextPathRev | EOp::NextAln)
+    }
+    fn entry(self) -> &'static str {
+        match self {
+            EOp::NextEnd => "next_end",
+            EOp::Next => "next",
+            EOp::NextPath => "next_path",
+            EOp::NextPathRev => "next_path_reverse",
+            EOp::NextAln => "next_alignment",
+            EOp::Start => "start",
+            EOp::Path => "path",
+            EOp::PathRev => "path_reverse",
+            EOp::Aln => "alignment",
+        }
+    }
+}
+
+#[derive(Clone, Debug, PartialEq, Eq, Hash)]
+enum EObs {
+    End(Option<(usize, u64)>),
+    Triple(Option<(usize, usize, u64)>),
+    /// next_path / next_path_reverse: result and the vector afterwards
+    NPath(Option<(usize, usize, u64)>, Ops),
+    /// next_alignment / alignment
+    Aln(bool, AlnT),
+    Start(Option<usize>),
+    /// path / path_reverse
+    Path(Option<usize>, Ops),
+}
+
+/// Run `ops` on one FullMatches of a fresh matcher. Every call gets a marker vector / a poisoned
+/// Alignment. A panic ends the session (Err); `out` then holds the observations made before it.
+fn exec_eager_seq(my: &mut AnyMyers, t: &[u8], k: u64, ops: &[EOp], out: &mut Vec<EObs>) -> Result<(), String> {
+    guard(|| {
+        on_myers!(my, m => {
+            let mut fm = m.find_all(t, k as _);
+            for op in ops {
+                let o = match *op {
+                    EOp::NextEnd => EObs::End(fm.next_end().map(|(e, d)| (e, d as u64))),
+                    EOp::Next => EObs::Triple(fm.next().map(|(s, e, d)| (s, e, d as u64))),
+                    EOp::NextPath => {
+                        let mut v = marker_ops();
+                        let r = fm.next_path(&mut v).map(|(s, e, d)| (s, e, d as u64));
+                        EObs::NPath(r, v)
+                    }
+                    EOp::NextPathRev => {
+                        let mut v = marker_ops();
+                        let r = fm.next_path_reverse(&mut v).map(|(s, e, d)| (s, e, d as u64));
+                        EObs::NPath(r, v)
+                    }
+                    EOp::NextAln => {
+                        let mut a = poisoned();
+                        let ok = fm.next_alignment(&mut a);
+                        EObs::Aln(ok, aln_tuple(&a))
+                    }
+                    EOp::Start => EObs::Start(fm.start()),
+                    EOp::Path => {
+                        let mut v = marker_ops();
+                        let r = fm.path(&mut v);
+                        EObs::Path(r, v)
+                    }
+                    EOp::PathRev => {
+                        let mut v = marker_ops();
+                        let r = fm.path_reverse(&mut v);
+                        EObs::Path(r, v)
+                    }
+                    EOp::Aln => {
+                        let mut a = poisoned();
+                        let ok = fm.alignment(&mut a);
+                        EObs::Aln(ok, aln_tuple(&a))
+                    }
+                };
+                out.push(o);
+            }
+        })
+    })
+}
+
+/// Sequences in which start()/path()/path_reverse() precede the first next_*() are not enumerated:
+/// the rustdoc says nothing about them on an object that has not searched yet.
+fn eager_seq_admissible(ops: &[EOp]) -> bool {
+    for op in ops {
+        if op.advances() {
+            return true;
+        }
+        if matches!(op, EOp::Start | EOp::Path | EOp::PathRev) {
+            return false;
+        }
+    }
+    true
+}
+
+/// Model of a FullMatches session: the hits (validated eager reference of a fresh object) are
+/// handed out in order by every next_*(); the accessors answer for the hit returned last; once a
+/// next_*() has found nothing, the object is exhausted (see `check_no_hit`).
+fn check_eager_seq(cfg: &LazyCfg, r: &LazyRef, ops: &[EOp], obs: &[EObs], cc: &mut CaseCtx) {
+    let f = &r.fam;
+    let (m, tlen) = (cfg.p.len(), cfg.t.len());
+    let multiblock = cfg.imp.is_long() && m > cfg.imp.word();
+    let untouched = marker_ops();
+    let mut idx = 0usize; // hits handed out so far
+    let mut exhausted = false;
+    let mut interesting = false;
+    for (i, (op, ob)) in ops.iter().zip(obs).enumerate() {
+        let what = format!("op #{} {:?} ({} hits handed out{})", i, op, idx, if exhausted { ", exhausted" } else { "" });
+        if op.advances() {
+            let exp = if exhausted { None } else { r.hits.get(idx) };
+            let ok = match (exp, ob) {
+                (Some(h), EObs::End(g)) => *g == Some((h.end - 1, h.dist)),
+                (Some(h), EObs::Triple(g)) => *g == Some((h.start, h.end, h.dist)),
+                (Some(h), EObs::NPath(g, v)) => {
+                    *g == Some((h.start, h.end, h.dist)) && if *op == EOp::NextPathRev { v.iter().eq(h.ops.iter().rev()) } else { *v == h.ops }
+                }
+                (Some(h), EObs::Aln(b, a)) => *b && *a == expected_aln(h, m, tlen),
+                (None, EObs::End(g)) => g.is_none(),
+                (None, EObs::Triple(g)) => g.is_none(),
+                (None, EObs::NPath(g, _)) => g.is_none(),
+                (None, EObs::Aln(b, _)) => !*b,
+                _ => unreachable!(),
+            };
+            if !ok {
+                let symptom = if exp.is_some() { "differs-from-next_path" } else { "hit-after-exhaustion" };
+                cc.violation(vkey(f, op.entry(), symptom), format!("{}: got {:?}, reference hit {:?}", what, ob, exp));
+                // the model and the object are out of step now
+                return;
+            }
+            match exp {
+                Some(_) => idx += 1,
+                None => {
+                    exhausted = true;
+                    match ob {
+                        EObs::NPath(_, v) if *v != untouched && !v.is_empty() => {
+                            cc.violation(vkey(f, op.entry(), "argument-garbled-on-none"), format!("{}: returned None and left {:?} in the vector", what, v));
+                        }
+                        // "If no next hit is found, false is returned and aln remains unchanged"
+                        EObs::Aln(_, a) if *a != aln_tuple(&poisoned()) => {
+                            cc.violation(vkey(f, op.entry(), "argument-modified-on-false"), format!("{}: returned false but changed the Alignment to {:?}", what, a));
+                        }
+                        _ => {}
+                    }
+                }
+            }
+            continue;
+        }
+        if !exhausted && idx == 0 {
+            // fresh object: only alignment() is enumerated here
+            if let EObs::Aln(b, a) = ob {
+                interesting = true;
+                if let Some((symptom, detail)) = judge_fresh_alignment(*b, a, m, tlen, false) {
+                    cc.violation(vkey(f, "alignment", symptom), format!("{}: {}", what, detail));
+                }
+            }
+            continue;
+        }
+        if exhausted {
+            interesting = true;
+            let mut x = NoHit { path: marker_ops(), rev: marker_ops(), ..Default::default() };
+            match (*op, ob) {
+                (EOp::Start, EObs::Start(g)) => x.start = *g,
+                (EOp::Path, EObs::Path(g, v)) => {
+                    x.path_start = *g;
+                    x.path = v.clone();
+                }
+                (EOp::PathRev, EObs::Path(g, v)) => {
+                    x.rev_start = *g;
+                    x.rev = v.clone();
+                }
+                (EOp::Aln, EObs::Aln(b, a)) => {
+                    x.aln_ok = *b;
+                    x.aln = Some(a.clone());
+                }
+                _ => unreachable!(),
+            }
+            check_no_hit(f, &what, &x, r.hits.last(), m, tlen, cc);
+            continue;
+        }
+        let h = &r.hits[idx - 1];
+        if h.dist > 0 || multiblock {
+            interesting = true;
+        }
+        let ok = match (*op, ob) {
+            (EOp::Start, EObs::Start(g)) => *g == Some(h.start),
+            (EOp::Path, EObs::Path(g, v)) => *g == Some(h.start) && *v == h.ops,
+            (EOp::PathRev, EObs::Path(g, v)) => *g == Some(h.start) && v.iter().eq(h.ops.iter().rev()),
+            (EOp::Aln, EObs::Aln(b, a)) => *b && *a == expected_aln(h, m, tlen),
+            _ => unreachable!(),
+        };
+        if !ok {
+            let symptom = if *op == EOp::Aln { "wrong-fields-or-path" } else { "differs-from-next_path" };
+            cc.violation(vkey(f, op.entry(), symptom), format!("{}: got {:?}, current hit {:?}", what, ob, h));
+        }
+    }
+    cc.set_nontrivial(interesting);
+}
+
+fn run_eager_seq(cfg: &LazyCfg, r: &LazyRef, ops: &[EOp], cc: &mut CaseCtx) {
+    let via = cfg.via();
+    let mut my = match build(cfg.imp, &cfg.p, via.as_ref()) {
+        Ok(m) => m,
+        Err(msg) => {
+            cc.violation(vkey(&r.fam, "constructor", panic_symptom(&msg)), msg);
+            return;
+        }
+    };
+    let mut obs = Vec::with_capacity(ops.len());
+    let res = exec_eager_seq(&mut my, &cfg.t, cfg.k, ops, &mut obs);
+    cc.outcome(&obs);
+    // what was observed before a panic is still checked
+    check_eager_seq(cfg, r, &ops[..obs.len()], &obs, cc);
+    if let Err(msg) = res {
+        let entry = ops.get(obs.len()).map(|o| o.entry()).unwrap_or("find_all");
+        cc.violation(vkey(&r.fam, entry, panic_symptom(&msg)), format!("op #{} {:?} panicked: {}", obs.len(), ops.get(obs.len()), msg));
+    }
+}
+
+fn eager_seq_depth(tier: Tier) -> usize {
+    tier.pick(4, 5)
+}
+
+/// all admissible call sequences of length `depth` on one FullMatches; every sequence is one case
+/// and starts from a fresh matcher
+fn eager_seq_config(cfg: &LazyCfg, depth: usize, ctx: &mut Ctx) {
+    let mut lref: Option<LazyRef> = None;
+    ctx.case(
+        || json!({"kind": "eager-seq", "init": cfg.to_json(), "ops": [], "cfg": {"search": "reference"}}),
+        |cc| {
+            lref = lazy_reference(cfg, cc);
+            if let Some(r) = &lref {
+                cc.outcome(&r.hits);
+            }
+        },
+    );
+    let r = match lref {
+        Some(r) => r,
+        None => return,
+    };
+    let radices = vec![EOPS.len(); depth];
+    let mut h: Vec<EOp> = Vec::with_capacity(depth);
+    gen::odometer(&radices, |dg| {
+        h.clear();
+        h.extend(dg.iter().map(|&i| EOPS[i]));
+        if !eager_seq_admissible(&h) {
+            return;
+        }
+        ctx.case(
+            || json!({"kind": "eager-seq", "init": cfg.to_json(), "ops": h, "cfg": {"search": "all-sequences", "depth": depth}}),
+            |cc| {
+                cc.add_transitions(depth as u64);
+                cc.add_traces(1);
+                run_eager_seq(cfg, &r, &h, cc);
+            },
+        );
+    });
+}
+
+fn eager_seq_unit(tier: Tier, shard: usize, nshards: usize, ctx: &mut Ctx) {
+    // the configurations of the lazy all-sequences search (text start hits, k >= |p|, two u8 blocks)
+    for (i, cfg) in lazy_interleave_configs(tier).iter().enumerate() {
+        if i % nshards == shard {
+            eager_seq_config(cfg, eager_seq_depth(tier), ctx);
+        }
+        if ctx.res.capped {
+            break;
+        }
+    }
+}
+
+// ------------------------------------------------------------------ K1: block de-activation family
+
+/// (word size, pattern lengths, longest period unit) — the family of C09, thinned out: a full
+/// case costs two orders of magnitude more than a find_all_end
+fn deact_families(tier: Tier) -> Vec<(usize, Vec<usize>, usize)> {
+    match tier {
+        Tier::Quick => vec![(8, vec![9, 16, 17, 24, 25], 2)],
+        Tier::Thorough => vec![(8, vec![9, 10, 15, 16, 17, 24, 25, 33], 2), (16, vec![17, 32, 33], 2)],
+    }
+}
+
+/// the block-based instantiations and one one-word instantiation to compare the alignments with
+/// (the other one-word widths see nothing of the block logic; their cases would only cost time)
+const DEACT_IMPS: [Imp; 4] = [Imp::S64, Imp::L8, Imp::L16, Imp::L64];
+
+fn deact_j_set(tier: Tier, w: usize) -> Vec<usize> {
+    match tier {
+        Tier::Quick => vec![0, w - 1, w, w + 1, 2 * w, 2 * w + 2],
+        Tier::Thorough => (0..=2 * w + 2).collect(),
+    }
+}
+
+fn deact_ks(tier: Tier, w: usize) -> Vec<u64> {
+    match tier {
+        Tier::Quick => vec![0, 1, 3, w as u64],
+        Tier::Thorough => vec![0, 1, 2, 3, w as u64 / 2 + 1, w as u64, w as u64 + w as u64 / 2 + 1],
+    }
+}
+
+fn deact_unit(tier: Tier, shard: usize, nshards: usize, ctx: &mut Ctx) {
+    let eq = EqModel::plain();
+    // a length can belong to the families of two word sizes: its texts and thresholds are merged
+    for (idx, (p, ws)) in deact_plan(&deact_families(tier)).iter().enumerate() {
+        if idx % nshards != shard {
+            continue;
+        }
+        let m = p.len();
+        let mut texts: Vec<Vec<u8>> = vec![];
+        let mut ks: Vec<u64> = vec![];
+        for &w in ws {
+            let a_set = clamp_set(vec![0, w + 1, m - 1, m], m);
+            let c_set = clamp_set(vec![0, w + 1, m], m);
+            texts.extend(deact_texts(p, &a_set, &[FOREIGN, b'a', b'c'], &deact_j_set(tier, w), &c_set));
+            ks.extend(deact_ks(tier, w));
+        }
+        texts.sort();
+        texts.dedup();
+        ks.sort();
+        ks.dedup();
+        for t in &texts {
+            let d = edit::semiglobal_eq(p, t, &eq);
+            for &k in &ks {
+                full_case(ctx, &DEACT_IMPS, false, p, t, K::N(k), &d);
+            }
+        }
+        if ctx.res.capped {
+            return;
+        }
+    }
+}
+
 // ------------------------------------------------------------------ Prop
 
 const EAGER: usize = 24;
@@ -1222,6 +1858,8 @@ const AMBIG: usize = 8;
 const BOUNDARY: usize = 8;
 const LAZY_BFS: usize = 8;
 const LAZY_IL: usize = 12;
+const EAGER_SEQ: usize = 4;
+const DEACT: usize = 8;
 
 fn unit_names() -> Vec<String> {
     let mut v: Vec<String> = vec![];
@@ -1231,6 +1869,10 @@ fn unit_names() -> Vec<String> {
     v.extend((0..LAZY_BFS).map(|i| format!("lazy-bfs-{}", i)));
     v.extend((0..AMBIG).map(|i| format!("ambig-{}", i)));
     v.extend(IMPS.iter().map(|i| format!("reuse-{}", i.name())));
+    // appended later (unit names are referred to by replay files and evidence; keep the order)
+    v.extend((0..DEACT).map(|i| format!("deact-{}", i)));
+    v.extend((0..EAGER_SEQ).map(|i| format!("eager-seq-{}", i)));
+    v.push("fresh-alignment".into());
     v
 }
 
@@ -1242,7 +1884,7 @@ impl Prop for C10Prop {
         "model_checking"
     }
     fn rule(&self) -> &'static str {
-        "K2 over LazyMatches sessions: (a) breadth-first search over session states (key = digest of the complete Debug rendering of the session object incl. the borrowed matcher and its column store), every operation {next, hit_at(e), path_at(e), alignment_at(e) | e in 0..=|t|} from every reachable state, each history replayed from a fresh matcher; (b) all operation sequences of a fixed length without state merging; (c) breadth-first search over one Myers object (key = the object, Hash+Eq over all fields) through sequences of searches (find_all_end / find_all complete or abandoned / find_all_lazy complete or abandoned), each answer compared with a fresh object's. K1: every (pattern, text, k) of the sweep, the ambiguity sweep and the word/block boundary family through find_all_end, next_path, the iterator, next_end+start/path/path_reverse/alignment, next_path_reverse, next_alignment and a scripted lazy session; path validator and semiglobal DP as oracle; alignments compared across the seven instantiations. One case = one transition, one history or one (pattern, text, k); each is enumerated once. Non-trivial: a hit with 0 < d <= k is involved (queried, for lazy histories), or a hit of a pattern spanning more than one block; reuse transitions: applied to a used object and the search has a hit with d > 0."
+        "K2 over LazyMatches sessions: (a) breadth-first search over session states (key = digest of the complete Debug rendering of the session object incl. the borrowed matcher and its column store), every operation {next, hit_at(e), path_at(e), alignment_at(e) | e in 0..=|t|} from every reachable state, each history replayed from a fresh matcher; (b) all operation sequences of a fixed length without state merging; (c) breadth-first search over one Myers object (key = the object, Hash+Eq over all fields) through sequences of searches (find_all_end / find_all complete or abandoned / find_all_lazy complete or abandoned), each answer compared with a fresh object's. K1: every (pattern, text, k) of the sweep, the ambiguity sweep and the word/block boundary family through find_all_end, next_path, the iterator, next_end+start/path/path_reverse/alignment, next_path_reverse, next_alignment and a scripted lazy session; path validator and semiglobal DP as oracle; alignments compared across the seven instantiations. Every K1 case also visits the states of a FullMatches without a current hit: alignment() on a fresh object (block-based implementations with a multi-block pattern; all implementations in fresh-alignment and eager-seq); after the next_end() loop has returned None: start/path/path_reverse/alignment, every next_*() once more, and the four accessors again. (d) eager-seq: all sequences of a fixed length over {next_end, next, next_path, next_path_reverse, next_alignment, start, path, path_reverse, alignment} on one FullMatches (sequences that call start/path/path_reverse before the first next_*() are left out: undocumented), model = the validated hit list handed out in order, accessors answer for the hit returned last, None/false once exhausted. fresh-alignment: alignment() on a fresh FullMatches for every implementation over a small (pattern, text, k) space. deact: periodic multi-block patterns over {a,b,c} against texts p[..a] f^j p[..c] (blocks of the block-based matcher activated, dropped at distance k+w, re-activated) as K1 cases. One case = one transition, one history or one (pattern, text, k); each is enumerated once. Non-trivial: a hit with 0 < d <= k is involved (queried, for lazy histories), or a hit of a pattern spanning more than one block; reuse transitions: applied to a used object and the search has a hit with d > 0; eager-seq: an accessor is called at a hit with d > 0, at a hit of a multi-block pattern, after exhaustion or (alignment) on the fresh object; fresh-alignment: every case."
     }
     fn assumptions(&self) -> Vec<&'static str> {
         vec![
@@ -1251,6 +1893,9 @@ impl Prop for C10Prop {
             "'not yet searched' = end position beyond the last one returned by next() while next() has not yet returned None; ends >= |t| are never searched",
             "lazy-bfs merges states on a 128-bit digest of the Debug rendering (all fields, derived); reuse merges on the Myers object itself",
             "the Alignment handed to next_alignment/alignment/alignment_at is pre-filled with impossible values, all fields must be set (xstart 0, xend = xlen = |p|, ylen = |t|, ystart/yend, score = d, mode Semiglobal)",
+            "states without a current hit (rustdoc of FullMatches): start/path/path_reverse return None and alignment returns false without touching the Alignment when the search has finished without any hit; after hits followed by None the same answers or exactly the last hit's values are accepted (the wording admits both); a vector handed to a call that returns None may come back untouched or cleared; every next_*() after a None returns None/false, next_alignment leaves the Alignment unchanged",
+            "alignment() on a fresh FullMatches: documented to return false and do nothing; the library instead reports the empty-prefix column (score |p|, ystart = yend = 1, |p| insertions) whenever the initial column is complete. C10 quantifies over reported hits, so that one shape is tolerated (counted in the evidence by the unit fresh-alignment); any other answer is a violation everywhere",
+            "start/path/path_reverse before the first next_*() are not called (nothing is documented about them)",
             "subject built with overflow checks and debug assertions on, as in the pinned test profile",
         ]
     }
@@ -1271,7 +1916,15 @@ impl Prop for C10Prop {
                                 "depth": format!("largest d <= {} with (1+3(|t|+1))^d <= {}", tier.pick(4, 6), tier.pick(100_000, 3_000_000)),
                                 "implementations": tier.pick("u8, u64, long-u8, long-u64", "all seven")},
             "reuse": {"patterns": reuse_patterns(tier).iter().map(|p| show(p)).collect::<Vec<_>>(), "depth": reuse_depth(tier),
-                      "searches": "6 texts x k in {0,1,3,|p|+1} x 5 ways of searching"}
+                      "searches": "6 texts x k in {0,1,3,|p|+1} x 5 ways of searching"},
+            "eager_seq": {"configurations": "those of lazy_interleave", "ops": EOPS.iter().map(|o| o.entry()).collect::<Vec<_>>(), "depth": eager_seq_depth(tier)},
+            "fresh_alignment": {"patterns": format!("{{a,b}}^1..={} and 5 patterns of 8, 9, 16, 17, 33 symbols", tier.pick(3, 4)), "texts": format!("{{a,b}}^0..={}", tier.pick(2, 3)),
+                                "k": "0,1,7,8,9,16,17,|p|-1,|p|,|p|+1,max", "implementations": "all seven, new()"},
+            "block_deactivation": deact_families(tier).iter().map(|(w, lens, mu)| json!({
+                "word": w, "pattern_len": lens,
+                "patterns": format!("u^r cut to the length, plain and last symbol rotated, u in {{a,b,c}}^1..={} containing c", mu),
+                "texts": format!("p[..a] f^j p[..c], a in {{0,w+1,|p|-1,|p|}}, f in {{d,a,c}}, j in {:?}, c in {{0,w+1,|p|}}", deact_j_set(tier, *w)),
+                "k": deact_ks(tier, *w), "implementations": DEACT_IMPS.iter().map(|i| i.name()).collect::<Vec<_>>()})).collect::<Vec<_>>()
         })
     }
     fn units(&self, _tier: Tier) -> Vec<String> {
@@ -1300,7 +1953,19 @@ impl Prop for C10Prop {
         }
         u -= AMBIG;
         if u < IMPS.len() {
-            reuse_unit(tier, IMPS[u], ctx);
+            return reuse_unit(tier, IMPS[u], ctx);
+        }
+        u -= IMPS.len();
+        if u < DEACT {
+            return deact_unit(tier, u, DEACT, ctx);
+        }
+        u -= DEACT;
+        if u < EAGER_SEQ {
+            return eager_seq_unit(tier, u, EAGER_SEQ, ctx);
+        }
+        u -= EAGER_SEQ;
+        if u == 0 {
+            fresh_alignment_unit(tier, ctx);
         }
     }
     fn replay(&self, case: &Value, ctx: &mut Ctx) {
@@ -1318,6 +1983,27 @@ impl Prop for C10Prop {
                 let via = if ambig { Some(&am) } else { None };
                 let d = edit::semiglobal_eq(&p, &t, &via.cloned().unwrap_or_default());
                 ctx.case(|| case.clone(), |cc| check_full_case(&imps, via, &p, &t, k, &d, cc));
+            }
+            "fresh-alignment" => {
+                let p = unshow(case["p"].as_str().unwrap_or(""));
+                let t = unshow(case["t"].as_str().unwrap_or(""));
+                let k = K::from_json(&case["k"]);
+                if let Some(imp) = case["imp"].as_str().and_then(Imp::parse) {
+                    ctx.case(|| case.clone(), |cc| check_fresh_alignment(imp, &p, &t, k, cc));
+                }
+            }
+            "eager-seq" => {
+                if let Some(cfg) = LazyCfg::from_json(&case["init"]) {
+                    let ops: Vec<EOp> = serde_json::from_value(case["ops"].clone()).unwrap_or_default();
+                    ctx.case(
+                        || case.clone(),
+                        |cc| {
+                            if let Some(r) = lazy_reference(&cfg, cc) {
+                                run_eager_seq(&cfg, &r, &ops, cc);
+                            }
+                        },
+                    );
+                }
             }
             "history" => {
                 let init = &case["init"];
